@@ -208,6 +208,29 @@ func (p *c18) Gen(seed uint64, i int, tier string) (any, bool) {
 			m.Embeds = append(m.Embeds, f)
 		}
 	}
+	levels := 0
+	if len(m.Parts) >= 2 {
+		levels++
+	}
+	if (len(m.Parts) > 0 && len(m.Embeds) > 0) || len(m.Embeds) > 1 {
+		levels++
+	}
+	if ((len(m.Parts) > 0 || len(m.Embeds) > 0) && len(m.Attach) > 0) || len(m.Attach) > 1 {
+		levels++
+	}
+	if levels == 1 && r.Chance(1, 2) {
+		// a boundary chosen by the caller: 1..70 characters (RFC 2046), every length. Only for
+		// shapes with a single multipart level: go-mail uses the caller's boundary for every
+		// level, so nested containers would share it — a structural matter outside this
+		// property (and outside what the structural reader of this oracle can cut apart)
+		const bchars = "0123456789abcdefghijklmnopqrstuvwxyzABCDEFGHIJKLMNOPQRSTUVWXYZ'()+_,-./:=?"
+		n := 1 + r.Intn(70)
+		bd := make([]byte, n)
+		for k := range bd {
+			bd[k] = bchars[r.Intn(len(bchars))]
+		}
+		m.Boundary = string(bd)
+	}
 	sc := &C18Scenario{Msg: m, Seed: sim.Derive(seed, 18, uint64(i), 1)}
 	sc.ReEnc = nf > 0 && r.Chance(1, 5)
 	for k := 0; k < m.producerCount(); k++ {
